@@ -1272,6 +1272,7 @@ def c04(ctx, res, only_hash_agreement=False):
     n_sites = 0
     work = [b for b in ctx.facts.bodies if not b.file.endswith("mem_size.rs")]
     deferred_done = set()
+    deferred_sites = set()
     while work:
         b = work.pop(0)
         tcalls = [c for c in cg.calls.get(b.path, []) if c.model and c.model.get("table") in ("find", "remove", "insert", "insert_grow")]
@@ -1310,15 +1311,23 @@ def c04(ctx, res, only_hash_agreement=False):
                     if b.path not in deferred_done:
                         deferred_done.add(b.path)
                         from ..inline import derive
-                        callers = [cc.body for cc in cg.callers_of(b.path) if cc.body is not None and not cc.body.is_closure]
-                        if not callers:
-                            res.violate("C04.1:%s:%s-site:hash-from-nowhere" % (b.path, cls), "table %s in `%s` takes its hash from a parameter "
-                                        "but the function has no caller" % (cls, b.path), c.loc, {}, "C04.1 hash/eq agreement")
-                        for X in callers:
-                            X2, inl = derive(ctx, X, lambda tg, _p=b.path: tg.path == _p, depth=1)
-                            if inl:
-                                work.append(X2)
-                    continue
+                        ccs = [cc for cc in cg.callers_of(b.path) if cc.body is not None]
+                        derived = []
+                        for cc in ccs:
+                            if cc.body.is_closure or cc.target is None or cc.target.path != b.path:
+                                derived = None
+                                break
+                            X2, inl = derive(ctx, cc.body, lambda tg, _p=b.path: tg.path == _p, depth=1)
+                            if not inl:
+                                derived = None
+                                break
+                            derived.append(X2)
+                        if ccs and derived:
+                            work.extend(derived)
+                            deferred_sites.add(b.path)
+                    if b.path in deferred_sites:
+                        continue
+                    # (no caller, or a caller that cannot be inlined: the site is judged in place and reported -- fail closed)
                 if cls in ("find", "remove"):
                     eqc = argt[2] if len(argt) > 2 else None
                     key_h = _hash_key(h, hnames, owner, r, probs)
@@ -1671,6 +1680,7 @@ def c05(ctx, res):
     n_call = 0
     work_b = [(b_, frozenset()) for b_ in ctx.facts.bodies]
     deferred_b = set()
+    deferred_ok = set()
     while work_b:
         b, inl_set = work_b.pop(0)
         for c in cg.calls.get(b.path, []):
@@ -1678,19 +1688,31 @@ def c05(ctx, res):
                 continue
             (X, Y, F, G) = splice_field_of_first[c.target.path]
             origin = b.path.split("#inl")[0]
-            if len(inl_set) < 4 and _neighbours_from_params(ctx, te0, b, c, X):
+            if len(inl_set) < 4 and not b.is_closure and _neighbours_from_params(ctx, te0, b, c, X):
                 # a wrapper of the splice primitive that receives the neighbours (or the node they are read from) as parameters:
-                # where the node goes is decided by its callers -- judge them with this wrapper (chain) inlined
+                # where the node goes is decided by its callers -- judge them with this wrapper (chain) inlined.  The site is only
+                # skipped here if every caller could be derived; otherwise it is judged in place (fail closed).
+                if origin in deferred_ok:
+                    continue
                 if origin not in deferred_b:
                     deferred_b.add(origin)
                     from ..inline import derive
                     new_set = inl_set | frozenset([origin])
-                    for cc in cg.callers_of(origin):
-                        if cc.body is not None and not cc.body.is_closure:
-                            X2_, inl_ = derive(ctx, cc.body, lambda tg, _s=new_set: tg.path in _s, depth=len(new_set) + 1)
-                            if inl_:
-                                work_b.append((X2_, new_set))
-                continue
+                    callers_ = [cc for cc in cg.callers_of(origin) if cc.body is not None]
+                    derived_ = []
+                    for cc in callers_:
+                        if cc.body.is_closure or cc.target is None or cc.target.path != origin:
+                            derived_ = None      # reached through a closure / trait dispatch: cannot be inlined
+                            break
+                        X2_, inl_ = derive(ctx, cc.body, lambda tg, _s=new_set: tg.path in _s, depth=len(new_set) + 1)
+                        if not inl_:
+                            derived_ = None
+                            break
+                        derived_.append((X2_, new_set))
+                    if callers_ and derived_:
+                        deferred_ok.add(origin)
+                        work_b.extend(derived_)
+                        continue
             n_call += 1
             res.count("C05.3 promotion sites")
             probs = []
